@@ -71,7 +71,7 @@ func (r *verifRouter) FindRoute(req *http.Request) (*routers.Route, map[string]s
 }
 
 type verifStep struct {
-	kind   int // 0 WriteHeader, 1 Write, 2 set response header, 3 Flush
+	kind   int // 0 WriteHeader, 1 Write, 2 set response header, 3 Flush, 4 flush the way http.ResponseController does
 	status int
 	data   []byte
 }
@@ -92,7 +92,7 @@ func verifC14(maxSteps int) {
 	n := verifChoose("steps", maxSteps+1)
 	steps := make([]verifStep, 0, n)
 	for i := 0; i < n; i++ {
-		st := verifStep{kind: verifChoose("step", 4)}
+		st := verifStep{kind: verifChoose("step", 5)}
 		switch st.kind {
 		case 0:
 			st.status = []int{200, 404, 204, 103, 101}[verifChoose("code", 5)]
@@ -115,6 +115,19 @@ func verifC14(maxSteps int) {
 			case 3:
 				if f, ok := w.(http.Flusher); ok {
 					f.Flush()
+				}
+			case 4:
+				// what http.ResponseController.Flush does: the first layer that can flush, looking through Unwrap
+				for cur := w; cur != nil; {
+					if f, ok := cur.(http.Flusher); ok {
+						f.Flush()
+						break
+					}
+					u, ok := cur.(interface{ Unwrap() http.ResponseWriter })
+					if !ok {
+						break
+					}
+					cur = u.Unwrap()
 				}
 			}
 		}
@@ -158,8 +171,8 @@ func verifC14(maxSteps int) {
 			hBody = append(hBody, st.data...)
 		case 2:
 			set = true
-		case 3:
-			// only the pass-through wrapper offers http.Flusher; a flush commits the header (200) at the client.
+		case 3, 4:
+			// only the pass-through wrapper offers http.Flusher (directly or to a ResponseController); a flush commits the header (200) at the client.
 			// The buffering strict wrapper must not: nothing may reach the client before validation.
 			if !strict && !hWrote {
 				hWrote, hStatus = true, 200
@@ -200,7 +213,7 @@ func verifC14(maxSteps int) {
 	_ = errors.New
 }
 
-//verif:harness id=C14 tier=quick witness=end bounds="route found or not x request valid or not x strict or not x every handler call sequence of length 0..3 over {WriteHeader(200|404|204|103|101), Write(1 symbolic byte), Header().Set, Flush}; client writer implements net/http's contract"
+//verif:harness id=C14 tier=quick witness=end bounds="route found or not x request valid or not x strict or not x every handler call sequence of length 0..3 over {WriteHeader(200|404|204|103|101), Write(1 symbolic byte), Header().Set, Flush, a ResponseController-style flush through Unwrap}; client writer implements net/http's contract"
 func verifH_C14_middleware() { verifC14(3) }
 
 //verif:harness id=C14 tier=thorough witness=end bounds="as quick with handler call sequences of length 0..5"
